@@ -26,7 +26,7 @@ G0(n) == [owner  |-> [i \in Ids(n) |-> IF n.present[i] THEN n.owner[i] ELSE 0],
 
 Rec(n, i) == <<n.present[i], n.owner[i], n.state[i], n.authed[i], n.ip[i]>>
 
-IsPap(op) == op \in {"PAPGOOD", "PAPBAD", "PAPSLOW"}
+IsPap(op) == op \in {"PAPGOOD", "PAPBAD", "PAPSLOW", "PAPCHAL"}
 
 \* ghost after event e observed between nodes pre and post
 Step(g, pre, e, post) ==
